@@ -51,7 +51,7 @@ type msgSpec struct {
 
 func c20Genesis() harness.Genesis {
 	t0 := harness.T0.Unix()
-	g := harness.Genesis{Balances: map[string]sdk.Coins{"A": sdk.NewCoins(sdk.NewInt64Coin(harness.Denom, 1000), sdk.NewInt64Coin(denomB, 100)), "B": coins(5), "sigA": coins(1)}}
+	g := harness.Genesis{Balances: map[string]sdk.Coins{"A": sdk.NewCoins(sdk.NewCoin(harness.Denom, mustInt("40000000000000001000")), sdk.NewInt64Coin(denomB, 100)), "B": coins(5), "sigA": coins(1)}}
 	v := vestingtypes.NewContinuousVestingAccountRaw(vestingtypes.NewBaseVestingAccount(authtypes.NewBaseAccountWithAddress(harness.Addr("V")), sdk.NewCoins(sdk.NewInt64Coin(harness.Denom, 30), sdk.NewInt64Coin(denomB, 8)), t0+1000), t0)
 	g.Accounts = append(g.Accounts, v)
 	g.ExtraBal = append(g.ExtraBal, banktypes.Balance{Address: harness.AddrS("V"), Coins: sdk.NewCoins(sdk.NewInt64Coin(harness.Denom, 33), sdk.NewInt64Coin(denomB, 8))})
@@ -73,7 +73,8 @@ func addrAlpha() []nv {
 
 func intAlpha() []nv {
 	big, _ := sdk.NewIntFromString("57896044618658097711785492504343953926634992332820282019728792003956564819968")
-	return []nv{{"nil", sdk.Int{}, true}, {"-1", sdk.NewInt(-1), false}, {"0", sdk.ZeroInt(), false}, {"1", sdk.NewInt(1), false}, {"2^255", big, false}}
+	over64, _ := sdk.NewIntFromString("9223372036854775808") // one more than fits an int64: affordable for the rich owner
+	return []nv{{"nil", sdk.Int{}, true}, {"-1", sdk.NewInt(-1), false}, {"0", sdk.ZeroInt(), false}, {"1", sdk.NewInt(1), false}, {"2^255", big, false}, {"2^63", over64, false}}
 }
 
 func decAlpha() []nv {
@@ -87,6 +88,7 @@ func coinsAlpha() []nv {
 		{"zero", sdk.Coins{c(harness.Denom, sdk.ZeroInt())}, false}, {"negative", sdk.Coins{c(harness.Denom, sdk.NewInt(-5))}, false}, {"nil-amount", sdk.Coins{c(harness.Denom, sdk.Int{})}, false},
 		{"duplicate", sdk.Coins{c(harness.Denom, sdk.NewInt(1)), c(harness.Denom, sdk.NewInt(1))}, false}, {"unsorted", sdk.Coins{c("zzz", sdk.NewInt(1)), c(harness.Denom, sdk.NewInt(1))}, false},
 		{"invalid-denom", sdk.Coins{c("!", sdk.NewInt(1))}, false}, {"huge", sdk.Coins{c(harness.Denom, intAlpha()[4].V.(sdk.Int))}, false},
+		{"2^63", sdk.Coins{c(harness.Denom, intAlpha()[5].V.(sdk.Int))}, false},
 	}
 }
 
@@ -311,7 +313,16 @@ func c20States(w *harness.World) []c20State {
 	// what the v1.2.0 upgrade does to other pools of a removed vesting type
 	typeless := harness.Branch(pop)
 	w.App.CfevestingKeeper.RemoveVestingType(typeless, "gone")
-	return []c20State{{"empty", root}, {"populated", pop}, {"pool-with-removed-vesting-type", typeless}}
+	// amounts that fit an int64 one by one but not in total: two matured pools of 5e18 each, and a
+	// vesting account whose original vesting is above 2^63
+	large := must(root, vtypes.NewMsgCreateVestingPool(harness.AddrS("A"), "p", mustInt("5000000000000000000"), 20*time.Second, "t5"))
+	large = must(large, vtypes.NewMsgCreateVestingPool(harness.AddrS("A"), "q", mustInt("5000000000000000000"), 20*time.Second, "t5"))
+	large = must(large, vtypes.NewMsgSendToVestingAccount(harness.AddrS("A"), harness.AddrS("R1"), "p", sdk.NewInt(7), true))
+	hdr := large.BlockHeader()
+	hdr.Time = hdr.Time.Add(30 * time.Second)
+	hdr.Height++
+	large = large.WithBlockHeader(hdr)
+	return []c20State{{"empty", root}, {"populated", pop}, {"pool-with-removed-vesting-type", typeless}, {"matured-pools-summing-above-int64", large}}
 }
 
 func runC20(rc *RunCtx) {
@@ -428,7 +439,7 @@ func runC20(rc *RunCtx) {
 	rc.Level = "exploration"
 	rc.Cov = map[string]interface{}{
 		"evaluations": int(st.inputs)*3 + nq, "distinct_nontrivial": int(st.handlerRuns),
-		"rule":    "full product of the per-field boundary alphabets for every message type (17) x 3 states (empty, populated, pool whose vesting type was removed); every input goes through a protobuf marshal -> (optional field omission) -> unmarshal/UnpackInterfaces round trip, inputs that cannot be decoded are counted as unreachable; then ValidateBasic and, if it passes, the handler from the real router (msg server for cfesignature), each under recover(). Queries: every query of the four modules with nil request and the product of its field alphabets in each state. Non-trivial = (input, state) pairs whose handler actually ran (ValidateBasic passed).",
+		"rule":    "full product of the per-field boundary alphabets for every message type (17) x 4 states (empty, populated, pool whose vesting type was removed, two matured pools whose remainders sum above int64); every input goes through a protobuf marshal -> (optional field omission) -> unmarshal/UnpackInterfaces round trip, inputs that cannot be decoded are counted as unreachable; then ValidateBasic and, if it passes, the handler from the real router (msg server for cfesignature), each under recover(). Queries: every query of the four modules with nil request and the product of its field alphabets in each state. Non-trivial = (input, state) pairs whose handler actually ran (ValidateBasic passed).",
 		"samples": samples, "inputs_per_message": perMsg, "inputs": int(st.inputs), "undecodable_inputs": int(st.undecodable), "rejected_by_validate_basic": int(st.vbRejected),
 		"handler_runs": int(st.handlerRuns), "handler_successes": int(st.handlerOK), "panicking_runs": int(st.panics) + qp, "distinct_panic_sites": len(distinctPanics), "query_evaluations": nq, "exhaustive": true,
 	}
